@@ -1,3 +1,11 @@
 package main
 
-func checkLemmas(w *World, ps *PropSpec, tier string, seed int) []*Result { return checkImmutable(w) }
+func checkLemmas(w *World, ps *PropSpec, tier string, seed int) []*Result {
+	rs := checkImmutable(w)
+	for _, l := range ps.Lemmas {
+		if l == "determinism" {
+			rs = append(rs, checkDeterminism(w, []string{"parser", "ast", "symtable", "compile"})...)
+		}
+	}
+	return rs
+}
